@@ -225,6 +225,16 @@ func (a Attr) UnmarshalToType(data []byte) (any, error) {
 		err error
 	)
 
+	// encoding/json treats null as a no-op for strings and times, which
+	// would silently turn it into the zero value.
+	if string(data) == "null" && a.Type != AttrTypeBytes {
+		return nil, NewErrInvalidFieldValueInBody(
+			a.Name,
+			string(data),
+			GetAttrTypeString(a.Type, a.Nullable),
+		)
+	}
+
 	switch a.Type {
 	case AttrTypeString:
 		var s string
